@@ -4,6 +4,7 @@ import (
 	"bytes"
 	"fmt"
 	"hash"
+	"runtime"
 	"strings"
 	"sync"
 	"unsafe"
@@ -158,15 +159,30 @@ func c18Program(r *gen.Rand, seen map[uintptr]int) (digests int, steps []string,
 			if r.Chance(1, 3) {
 				_, _ = h.Write(nil) // an empty chunk is a legal write and changes nothing
 			}
+			streaming := carved == nil && r.Chance(1, 3) // chunks pass through ONE buffer that is refilled (io.Copy, a read loop)
+			var chunkBuf []byte
 			for off := 0; off < len(data); {
 				n := 1 + r.Intn(len(data)-off)
 				if r.Chance(1, 4) {
 					n = len(data) - off
 				}
-				if _, err := h.Write(data[off : off+n]); err != nil {
+				chunk := data[off : off+n]
+				if streaming {
+					chunkBuf = append(chunkBuf[:0], chunk...)
+					chunk = chunkBuf
+				}
+				if _, err := h.Write(chunk); err != nil {
 					return digests, steps, "Write error: " + err.Error()
 				}
+				if streaming {
+					for k := range chunkBuf {
+						chunkBuf[k] = 0xEE // Write has consumed its argument when it returns
+					}
+				}
 				off += n
+			}
+			if streaming {
+				steps = append(steps, "chunks written through one refilled buffer")
 			}
 			if r.Chance(1, 3) {
 				_, _ = h.Write(data[:0]) // ... also as the last chunk of a message
@@ -239,7 +255,7 @@ func c18(c *core.Ctx) {
 	// every holder writes its own message in turns, every digest is its own
 	c.Section("bursts", c.N(30, 3000), func(i int64, r *gen.Rand) {
 		for round := 0; round < 3; round++ {
-			n := r.PickInt([]int{2, 63, 64, 65, 100, 130, 300})
+			n := r.PickInt([]int{2, 63, 64, 65, 100, 130, 300, 1023, 1024, 1025, 3000}) // "however many": also more than a thousand holders at once
 			type held struct {
 				h        hash.Hash
 				key, msg []byte
@@ -286,6 +302,46 @@ func c18(c *core.Ctx) {
 		}
 		c.Eval(1)
 		c.Distinct(uint64(i) | 3<<50)
+	})
+	// (1c) a long life: after a lease that used Reset, one pooled object is re-keyed 255/256/257 and 65535/65536/65537
+	// times (no Reset in those leases, the library's own pattern), then used with Reset again
+	c.SectionSerial("long-lived-pool-object", 6, func(i int64, r *gen.Rand) {
+		defer runtime.GOMAXPROCS(runtime.GOMAXPROCS(1)) // one P: the object put back is the object handed out next
+		gap := []int{255, 256, 257, 65535, 65536, 65537}[i]
+		check := func(stage string, useReset bool) bool {
+			key := r.Bytes(r.PickInt([]int{0, 16, 64, 100}))
+			h := hmac.AcquireSHA1(key)
+			defer hmac.PutSHA1(h)
+			msg := r.Bytes(r.Intn(200))
+			_, _ = h.Write(msg)
+			if useReset {
+				h.Reset()
+				_, _ = h.Write(msg)
+			}
+			var got []byte
+			p, _ := safely(func() { got = h.Sum(nil) })
+			c.Count("digests_compared", 1)
+			if p != nil || !bytes.Equal(got, ref.HMACSHA1(key, msg)) {
+				c.Violate("digest-mismatch", "digest-mismatch:long-lived-pool-object", map[string]interface{}{
+					"problem": fmt.Sprintf("%s (%d plain re-keyings after a lease that used Reset): digest %x, panic %v", stage, gap, got, p)})
+
+				return false
+			}
+
+			return true
+		}
+		if !check("first lease", true) {
+			return
+		}
+		for k := 0; k < gap; k++ {
+			if !check("plain lease", false) {
+				return
+			}
+		}
+		check("lease with Reset at the end", true)
+		check("plain lease at the end", false)
+		c.Eval(1)
+		c.Distinct(uint64(gap) | 4<<50)
 	})
 	// (2) many goroutines sharing the pools
 	c.Section("concurrent", c.N(40, 10000), func(i int64, r *gen.Rand) {
